@@ -41,6 +41,7 @@ type Frame struct {
 	panicking *goPanic
 	visits    map[*ssa.BasicBlock]int
 	caller    *Frame
+	envParent *Frame
 }
 
 type Input struct {
@@ -106,6 +107,8 @@ type Path struct {
 	detail   string
 	funcsSeen map[*ssa.Function]int
 	locs map[string]*Cell
+	spec *specState
+	merges int
 }
 
 type wrapOb struct {
@@ -131,6 +134,9 @@ func sanitize(s string) string {
 }
 
 func (p *Path) addPC(c *Term) {
+	if p.spec != nil {
+		panic(specAbort{"path condition in speculation"})
+	}
 	if v, ok := c.constBool(); ok {
 		if !v {
 			panic(pathEnd{"infeasible"})
@@ -142,6 +148,9 @@ func (p *Path) addPC(c *Term) {
 }
 
 func (p *Path) decide(conds []*Term) int {
+	if p.spec != nil {
+		panic(specAbort{"decision in speculation"})
+	}
 	if p.pos < len(p.prefix) {
 		i := p.prefix[p.pos]
 		p.pos++
@@ -355,11 +364,12 @@ func (p *Path) get(fr *Frame, v ssa.Value) Value {
 	case nil:
 		return nil
 	}
-	r, ok := fr.env[v]
-	if !ok {
-		panic(fmt.Sprintf("no value for %s in %s", v.Name(), fr.fn))
+	for f := fr; f != nil; f = f.envParent {
+		if r, ok := f.env[v]; ok {
+			return r
+		}
 	}
-	return r
+	panic(fmt.Sprintf("no value for %s in %s", v.Name(), fr.fn))
 }
 
 func (p *Path) globalCell(g *ssa.Global) *Cell {
@@ -445,6 +455,7 @@ func (p *Path) callValue(fv Value, args []Value, site *ssa.CallCommon) Value {
 }
 
 func (p *Path) callIntrinsicName(name string, args []Value, site *ssa.CallCommon) Value {
+	p.specForbid("bound intrinsic")
 	if in, ok := intrinsics[name]; ok {
 		return in(p, args, site)
 	}
@@ -468,6 +479,9 @@ func (p *Path) callFunc(fn *ssa.Function, args []Value, free []Value, site *ssa.
 		name = fn.Origin().String()
 	}
 	if in, ok := intrinsics[name]; ok {
+		if p.spec != nil && !isPureIntrinsic(name) {
+			panic(specAbort{"impure intrinsic " + name})
+		}
 		return in(p, args, site)
 	}
 	if pkg := funcPkgPath(fn); pkg != "" {
@@ -553,6 +567,9 @@ func (p *Path) callBody(fn *ssa.Function, args []Value, free []Value) (ret Value
 }
 
 func (p *Path) runDefers(fr *Frame) {
+	if len(fr.defers) > 0 {
+		p.specForbid("run defers")
+	}
 	for len(fr.defers) > 0 {
 		d := fr.defers[len(fr.defers)-1]
 		fr.defers = fr.defers[:len(fr.defers)-1]
@@ -602,7 +619,10 @@ func (p *Path) invoke(recv Value, m *types.Func, args []Value, site *ssa.CallCom
 
 func (p *Path) execFrom(fr *Frame, b *ssa.BasicBlock) Value {
 	var prev *ssa.BasicBlock
+	phisBound := false
 	for {
+		skipPhis := phisBound
+		phisBound = false
 		fr.visits[b]++
 		if fr.visits[b] > p.eng.loopBound {
 			panic(pathEnd{"unwind:" + fr.fn.String()})
@@ -615,6 +635,9 @@ func (p *Path) execFrom(fr *Frame, b *ssa.BasicBlock) Value {
 			}
 			switch x := ins.(type) {
 			case *ssa.Phi:
+				if skipPhis {
+					continue
+				}
 				for i, pred := range b.Preds {
 					if pred == prev {
 						fr.env[x] = p.get(fr, x.Edges[i])
@@ -626,6 +649,13 @@ func (p *Path) execFrom(fr *Frame, b *ssa.BasicBlock) Value {
 				ct, ok := c.(*Term)
 				if !ok {
 					panic(unsupported(fmt.Sprintf("branch on %T in %s", c, fr.fn)))
+				}
+				if !ct.isConst() {
+					if j, ok := p.tryMerge(fr, b, ct); ok {
+						next = j
+						phisBound = true
+						break
+					}
 				}
 				if p.branch(ct) {
 					next = b.Succs[0]
@@ -688,7 +718,9 @@ func (p *Path) step(fr *Frame, ins ssa.Instruction) {
 		fr.env[x] = p.binop(x.Op, p.get(fr, x.X), p.get(fr, x.Y), x.X.Type(), x.Type())
 	case *ssa.Store:
 		addr := p.get(fr, x.Addr)
-		p.deref(addr).store(p.get(fr, x.Val))
+		cell := p.deref(addr)
+		p.specCheckStore(cell)
+		cell.store(p.get(fr, x.Val))
 	case *ssa.FieldAddr:
 		base := p.deref(p.get(fr, x.X))
 		if !base.agg {
@@ -710,6 +742,7 @@ func (p *Path) step(fr *Frame, ins ssa.Instruction) {
 	case *ssa.Call:
 		fr.env[x] = p.callInstr(fr, &x.Call)
 	case *ssa.Defer:
+		p.specForbid("defer")
 		fv, args := p.prepCall(fr, &x.Call)
 		fr.defers = append(fr.defers, deferred{fn: fv, args: args, call: &x.Call})
 	case *ssa.Go:
@@ -771,6 +804,7 @@ func (p *Path) step(fr *Frame, ins ssa.Instruction) {
 	case *ssa.Lookup:
 		fr.env[x] = p.lookup(fr, x)
 	case *ssa.MapUpdate:
+		p.specForbid("map update")
 		m := p.get(fr, x.Map).(MapVal)
 		if m.m == nil {
 			p.goPanicf("assignment to entry in nil map")
@@ -786,8 +820,10 @@ func (p *Path) step(fr *Frame, ins ssa.Instruction) {
 	case *ssa.Next:
 		fr.env[x] = p.rangeNext(p.get(fr, x.Iter).(*RangeIter), x)
 	case *ssa.Select:
+		p.specForbid("select")
 		fr.env[x] = p.selectOp(fr, x)
 	case *ssa.Send:
+		p.specForbid("send")
 		ch := p.get(fr, x.Chan).(ChanVal)
 		if ch.c == nil {
 			panic(unsupported("send on nil chan"))
@@ -878,6 +914,7 @@ func (p *Path) unop(fr *Frame, x *ssa.UnOp) Value {
 			return FloatVal{-t.f}
 		}
 	case token.ARROW:
+		p.specForbid("receive")
 		ch := v.(ChanVal)
 		if ch.c == nil {
 			panic(unsupported("recv on nil chan"))
@@ -920,8 +957,15 @@ func (p *Path) wrapCheck(r *Term, t types.Type, what string) *Term {
 		}
 		return r
 	}
-	p.wrapObl = append(p.wrapObl, wrapOb{ii.inRange(r), what})
+	p.addWrap(ii.inRange(r), what)
 	return r
+}
+
+func (p *Path) addWrap(c *Term, what string) {
+	if p.spec != nil {
+		c = mkImplies(p.spec.guard, c)
+	}
+	p.wrapObl = append(p.wrapObl, wrapOb{c, what})
 }
 
 func (p *Path) binop(op token.Token, a, b Value, opndT, resT types.Type) Value {
@@ -1236,7 +1280,7 @@ func (p *Path) convert(v Value, from, to types.Type) Value {
 					if fi.bits <= ii.bits && fi.signed == ii.signed || (!fi.signed && ii.signed && fi.bits < ii.bits) {
 						return x
 					}
-					p.wrapObl = append(p.wrapObl, wrapOb{ii.inRange(x), "convert " + from.String() + "->" + to.String()})
+					p.addWrap(ii.inRange(x), "convert "+from.String()+"->"+to.String())
 					return x
 				case tb.Info()&types.IsFloat != 0:
 					if c, ok := x.constInt(); ok {
@@ -1698,6 +1742,7 @@ func (p *Path) builtin(b *ssa.Builtin, args []Value, cc *ssa.CallCommon) Value {
 			return mkInt(int64(x.c.cap))
 		}
 	case "append":
+		p.specForbid("append")
 		s := args[0].(SliceVal)
 		var add []Value
 		var elemT types.Type
@@ -1745,6 +1790,7 @@ func (p *Path) builtin(b *ssa.Builtin, args []Value, cc *ssa.CallCommon) Value {
 		}
 		return SliceVal{b: nb, len: s.len + len(add), cap: ncap}
 	case "copy":
+		p.specForbid("copy")
 		dst := args[0].(SliceVal)
 		n := dst.len
 		switch src := args[1].(type) {
@@ -1773,6 +1819,7 @@ func (p *Path) builtin(b *ssa.Builtin, args []Value, cc *ssa.CallCommon) Value {
 		}
 		return mkInt(int64(n))
 	case "delete":
+		p.specForbid("delete")
 		m := args[0].(MapVal)
 		if m.m == nil {
 			return nil
@@ -1786,6 +1833,7 @@ func (p *Path) builtin(b *ssa.Builtin, args []Value, cc *ssa.CallCommon) Value {
 	case "panic":
 		panic(&goPanic{val: args[0], desc: "panic builtin: " + p.panicText(args[0])})
 	case "recover":
+		p.specForbid("recover")
 		if n := len(p.panicFrames); n > 0 {
 			fr := p.panicFrames[n-1]
 			if fr.panicking != nil {
@@ -1801,6 +1849,7 @@ func (p *Path) builtin(b *ssa.Builtin, args []Value, cc *ssa.CallCommon) Value {
 	case "print", "println":
 		return nil
 	case "close":
+		p.specForbid("close")
 		ch := args[0].(ChanVal)
 		ch.c.closed = true
 		return nil
